@@ -2,9 +2,10 @@
 (repeats, ties, absent keys, mixed types)."""
 from . import jsonmodel as jm
 
-KEY_UNIVERSE = ["a", "b", "", "é", 1, 2, 2.5, None, True, [1], {"x": 1},
-                # objects with the same members in another order (equal for `=`, apart in the sort order), and one between them
-                {"x": 1, "y": 2}, {"y": 2, "x": 1}, {"x": 1, "y": 3}]
+KEY_UNIVERSE = ["a", "b", "", "é", 1, 2, 2.5, None, True, [1], {"x": 1}]
+# objects with the same members in another order (equal for `=`, apart in the sort order), and one between them: only where
+# member-order permutations are inside the property's domain (sorting: C07/C08; not --unique, see C10's quantifier)
+PERMUTED_KEYS = [{"x": 1, "y": 2}, {"y": 2, "x": 1}, {"x": 1, "y": 3}, {"y": 1, "x": 1}]
 GROUP_UNIVERSE = ["a", "b", "", "é x", "k\"q", 1, None, "__absent__", ["a", "b"], ["c"], [], [1, "a", None], {"a": 1}, True]
 
 
